@@ -1516,7 +1516,7 @@ EXPLANATION = ("Static, for all Q>0.5, dT, wn: each of the six SRS coefficient f
                "the checker from the oscillator ODE (homogeneous solution -> particular solution for a linear force -> z-transform "
                "of the one-step recurrence); wn==0 branches are the wn->0 limits; srs() itself is evaluated on symbols once per regime of its "
                "options: steady-state add-back equals DC gain times the removed offset at the serial site and in every worker, window start / "
-               "history length / time vector / appended cycle per time option and rolloff regime, eqsine division; vrs integrand, response PSD "
+               "history length / time vector / appended cycle per time option and rolloff regime (window start also on the ic='steady' code path), eqsine division; vrs integrand, response PSD "
                "and Miles closed forms, quadrature weights on a uniform grid; peak selectors; srs_frf per option regime and per uniform world of the "
                "oscillators (all elastic / all rigid): |frf| before the expansion onto the analysis grid, grid = frf_frq + p_peak*srs_frq with p_peak the "
                "maximiser of |H|, response = H(f/fn) |frf|(f) with the base-drive transfer function derived in the checker, peak over the grid, resp "
